@@ -10,8 +10,9 @@ theorem writeNegative_eq (ds : List Nat) (e : Int) (o : WOpts) :
     writeNegative ds e o =
       (if (truncateAndRound ds o).2 = true ∧ e.natAbs = 1 then
         (if o.trim = true then [49] else [49, o.dp, 48] ++
-          (if (truncateAndRound ds o).1.length < minExactDigits (truncateAndRound ds o).1.length o then
-            zeros (minExactDigits (truncateAndRound ds o).1.length o - (truncateAndRound ds o).1.length) else []))
+          (if (truncateAndRound ds o).1.length + 1 < minExactDigits ((truncateAndRound ds o).1.length + 1) o then
+            zeros (minExactDigits ((truncateAndRound ds o).1.length + 1) o - ((truncateAndRound ds o).1.length + 1))
+           else []))
       else
         [48, o.dp] ++ zeros (if (truncateAndRound ds o).2 = true then e.natAbs - 2 else e.natAbs - 1)
           ++ chars (truncateAndRound ds o).1 ++
@@ -55,7 +56,7 @@ theorem negN_bytes (need : Nat) (ds : List Nat) (sciExp : Int) (o : WOpts) (b : 
       · simp only [c3, ↓reduceIte, Bool.false_eq_true, bind_ok_iff, set_ok_iff, padZeros_ok_iff] at h7 ⊢
         obtain ⟨b5, ⟨h8, rfl⟩, b6, ⟨h9, rfl⟩, h10⟩ := h7
         simp only [put_len, put_length, WBuf.len, chars, List.length_cons, List.length_nil, List.map] at h6 h8 h9 h10 ⊢
-        by_cases c4 : 0 + 1 < minExactDigits (0 + 1) o
+        by_cases c4 : 0 + 1 + 1 < minExactDigits (0 + 1 + 1) o
         · simp only [c4, ↓reduceIte] at h10 ⊢
           obtain ⟨h11, rfl⟩ := h10
           finish_bytes
